@@ -159,7 +159,8 @@ def perturb(rng, pb, what):
         for (i, j) in patG:
             if rng.random() < 0.4: G[i][j] += rnd_small(rng, -1, 1)
         q["G"] = G
-        if "h" not in what: what = set(what) | {"h"}
+        has_inf = any(isinstance(v, str) for v in pb["h"])
+        if "h" not in what and not (has_inf and rng.random() < 0.5): what = set(what) | {"h"}
     if "h" in what and m:
         q["h"] = [sum(q["G"][i][j] * x0[j] for j in range(n)) + rng.choice([Fr(1), Fr(2), Fr(1, 2)]) for i in range(m)]
     if "lb" in what or "ub" in what:
